@@ -122,11 +122,12 @@ func (e *Env) NewClient(o ClientOpt) (*Client, error) {
 	if err != nil {
 		return nil, err
 	}
-	c.Close = closer
+	var once sync.Once
+	c.Close = func() { once.Do(closer) }
 	e.mu.Lock()
 	e.closers = append(e.closers, func() {
 		done := make(chan struct{})
-		go func() { closer(); close(done) }()
+		go func() { c.Close(); close(done) }()
 		select {
 		case <-done:
 		case <-time.After(3 * time.Second):
